@@ -327,6 +327,12 @@ func (c *Config) UnmarshalYAML(unmarshal func(any) error) error {
 		*c.Global = DefaultGlobalConfig()
 	}
 
+	// An explicit `http_config: null` must not leave the receivers without a default.
+	if c.Global.HTTPConfig == nil {
+		defaultHTTPConfig := commoncfg.DefaultHTTPClientConfig
+		c.Global.HTTPConfig = &defaultHTTPConfig
+	}
+
 	if c.Global.SlackAppToken != "" && len(c.Global.SlackAppTokenFile) > 0 {
 		return errors.New("at most one of slack_app_token & slack_app_token_file must be configured")
 	}
